@@ -8,25 +8,29 @@ def _x(name, *args, **kw):
 
 
 def _cov(rs):
-    kd = {}
+    kd, kdp = {}, {}
     for r in rs:
         for k, v in r.get("counters", {}).items():
             if k.startswith("known_defect:"):
                 kd[k[13:]] = kd.get(k[13:], 0) + v
+            if k.startswith("proc:known_defect:"):
+                kdp[k[18:]] = kdp.get(k[18:], 0) + v
     nv = {k: _sum(rs, k) for k in (
         "cases_executed", "pruned_equivalent", "parses", "ref_ok", "ref_ok_with_includes", "ref_ok_with_foreign_base_uris", "ref_error",
         "ref_error:loop", "ref_error:no-fallback", "ref_error:multi-fallback", "ref_error:orphan-fallback", "ref_error:bad-parse", "ref_error:xpointer",
         "ref_error:no-href", "ref_error:bad-child", "ref_error:docelem", "ref_includes", "ref_xml_included", "ref_text_included", "ref_text_with_markup_chars",
         "ref_resource_errors", "ref_fallback_used", "ref_fallback_ignored", "ref_unused_fallback_with_include", "ref_loops", "ref_loops_via_dotdot",
         "ref_ok_depth:0", "ref_ok_depth:1", "ref_ok_depth:2", "ref_ok_depth:3", "dom:tree_equal", "dom:bases_equal", "dom:error_reported_as_expected",
-        "ls:tree_equal", "ls:bases_equal", "ls:error_reported_as_expected", "apis_agree", "leak_checks")}
+        "ls:tree_equal", "ls:bases_equal", "ls:error_reported_as_expected", "proc:tree_equal", "proc:bases_equal", "proc:error_reported_as_expected",
+        "apis_agree", "leak_checks", "xerces_file_opens", "xerces_opens_over_20", "xerces_opens_over_40", "xerces_opens_over_100", "xerces_opens_over_200")}
     return {
         # cases are distinct by construction (different file contents); non-trivial = at least one xi:include / xi:fallback was processed and the
         # outcome (merged tree + base URIs, or the obligation to report an error) was compared
         "distinct_nontrivial": _sum(rs, "ref_ok_with_includes") + _sum(rs, "ref_error"),
         "distinct_expected_results": _sum(rs, "distinct_signatures"),
         "nonvacuity": nv,
-        "known_defect_cases_skipped": kd,
+        "known_defect_cases_skipped": kd,                       # XercesDOMParser / DOMLSParser
+        "known_defect_cases_skipped_document_processor": kdp,   # XIncludeDOMDocumentProcessor
     }
 
 
@@ -67,7 +71,9 @@ SPEC = dict(
         "'an error is reported' = fatalError/error callback of the ErrorHandler / DOMErrorHandler or a documented exception of parse() (DOMException HIERARCHY_REQUEST_ERR is what Xerces "
         "raises for a text node / several elements replacing the document element); warnings (XIncludeResourceError 'unable to include resource') are not errors",
         "targets that are not well-formed, DOCTYPE-bearing targets (notation/entity merging), accept/accept-language and non-file URI schemes are outside the enumerated space",
-        "after the first reference error no tree is claimed (Xerces keeps processing the remaining includes; only the reporting obligation is checked)",
+        "after the first reference error no tree is claimed (Xerces keeps processing the remaining includes; only the reporting obligation is checked); "
+        "the specific XInclude message per error kind is not required when an exception ended processing",
+        "XIncludeDOMDocumentProcessor is driven with the parser as XMLErrorReporter on a document parsed with namespaces on and XInclude off; a user XMLEntityHandler is not installed",
         "cases whose only discrepancies match a predicate of KNOWN_DEFECTS in drv/c20_xinc.cpp are counted (known_defect_cases_skipped) and not re-reported in the big sub-spaces; "
         "each defect is reported by its minimal reproducer in the strict 'defects' sub-space (violation field defect=<id>)",
     ],
